@@ -299,6 +299,10 @@ def run(ctx: Ctx, tier: str) -> Result:
     stop = p.func("deep.utils.RepeatedTimer.stop")
     sets = [c for c in t.calls_in(stop) if isinstance(c.func, ast.Attribute) and c.func.attr == "set"]
     joins = [c for c in t.calls_in(stop) if isinstance(c.func, ast.Attribute) and c.func.attr == "join"]
+    timed = [j for j in joins if j.args or j.keywords]
+    if timed:
+        res.fail(Finding("C14.E", stop.qname, timed[0], stop.loc(timed[0]), "`%s` gives up waiting for the poll thread after a while: shutdown returns while a poll is still in flight, "
+                         "its answer is applied (and the next poll prepared) after the agent is down" % norm(timed[0])))
     if sets and joins and all(paths.dominates(p, sets[0], j, stop) for j in joins):
         res.ok("C14.E", {"event.set() dominates join()": stop.loc(sets[0])})
     elif not sets:
